@@ -756,6 +756,34 @@ def c18(res, tier, seed, deep):
     return "command histories (searches finished, running, stopped or not) followed by ucinewgame: the hook trace must show no running search and no stored artifact, and the following search is planned by the model as a fresh-memory search; plus the observable scenario: the successor of a mate-in-1 is searched in game 1, after ucinewgame the mating move must still be played (a stale history would treat it as a repetition)"
 
 
+def illegal_fen(rnd):
+    """a syntactically valid FEN whose position is not a legal chess position"""
+    k = rnd.randrange(8)
+    base = random_placement(rnd).split(" ")[0]
+    rows = base.split("/")
+    stm = rnd.choice("wb")
+    rights, ep = "-", "-"
+    if k == 0:      # arbitrary placement: kings missing / doubled / adjacent, either side in check
+        pass
+    elif k == 1:    # no kings at all
+        base = re.sub(r"[kK]", "Q", base)
+    elif k == 2:    # one side without king
+        base = re.sub(r"k", "n", base) if rnd.random() < 0.5 else re.sub(r"K", "N", base)
+    elif k == 3:    # pawns on the back ranks
+        rows[0] = rnd.choice(["P7", "p7", "PPPPPPPP", "3Pp3"]); rows[7] = rnd.choice(["p7", "P7", "pppppppp", "3pP3"])
+        base = "/".join(rows)
+    elif k == 4:    # castling rights without king / rook at home
+        rights = rnd.choice(["KQkq", "K", "Qk", "kq"])
+    elif k == 5:    # en-passant target with nothing behind it
+        ep = rnd.choice("abcdefgh") + rnd.choice("36")
+    elif k == 6:    # side not to move in check by a rook next to its king
+        base = "k6K/R7/8/8/8/8/8/8" if stm == "w" else "K6k/r7/8/8/8/8/8/8"
+    else:           # everything at once
+        rights, ep = "KQkq", rnd.choice("abcdefgh") + rnd.choice("36")
+        base = re.sub(r"K", "P", base)
+    return f"{base} {stm} {rights} {ep} {rnd.randrange(0, 100)} {rnd.randrange(1, 200)}"
+
+
 def c14_uci(res, tier, seed, deep):
     import uci_proc
     rnd = random.Random(seed + 77)
@@ -769,6 +797,18 @@ def c14_uci(res, tier, seed, deep):
         sessions.append((f"garbage-{seed}-{i}", pre + [(l, 0) for l in lines] + [("stop", 0), ("isready", 0)], False))
     for j, arg in enumerate(["movetime -50", "movetime -1", "movetime 0", "depth 0", "movetime 2147483647", "depth 99999999999999999999"]):
         sessions.append((f"bad-numbers-{j}", [("position fen " + uci_proc.NONBOOK[j % len(uci_proc.NONBOOK)], 0), ("go " + arg, 0), ("isready", 0.2), ("stop", 0), ("isready", 0)], False))
+    # syntactically valid FENs of ILLEGAL positions (a king missing or doubled, the side not to move in check, pawns
+    # on the back ranks, rights without rook/king, bogus en-passant targets, empty board) followed by moves and `go`:
+    # "bad FEN" in the sense of C14 — the parser accepts them, the process must survive whatever the search does
+    fixed_illegal = ["k7/8/8/8/8/8/8/7R w - - 0 1", "k6R/8/8/8/8/8/8/K7 w - - 0 1", "kQ6/8/8/8/8/8/8/7K w - - 0 1",
+                     "8/8/8/8/8/8/8/8 w - - 0 1", "k7/8/8/8/8/8/8/8 b - - 0 1", "kk5K/8/8/8/8/8/8/R7 w - - 0 1"]
+    nill = 40 if tier == "thorough" else (12 if deep else 6)
+    ill = fixed_illegal + [illegal_fen(rnd) for _ in range(nill)]
+    for j, f in enumerate(ill):
+        cmds = [("position fen " + f + (" moves " + rnd.choice(["e2e4", "a8b8", "h1h8", "a7a8q", "e1g1"]) if j % 3 == 2 else ""), 0),
+                ("go depth " + str(rnd.choice([1, 2, 3])), 0), ("isready", 0.4), ("stop", 0), ("isready", 0),
+                ("go movetime 50", 0), ("isready", 0.3), ("ucinewgame", 0), ("isready", 0)]
+        sessions.append((f"illegal-position-{j}", cmds, False))
     # liveness only: outside C07's command grammar (e.g. `go depth 0`) no bestmove is owed
     run_sessions(res, "uci_garbage_sessions", sessions, strict_bestmove=False)
 
